@@ -311,11 +311,13 @@ Fixpoint number_calls (i : Z) (l : list (rowk * ctor)) : option (list (shape * r
       end
   end.
 
-Definition p_cop : parser (nat -> ccall) :=
+(* the flag marks the bulk read (`Reader::read`: every pair that is left, stopping at the first error) *)
+Definition p_cop : parser (bool * (nat -> ccall)) :=
   k <- p_next ;;
-  if k =? 0 then j <- p_next ;; p_ret (fun cap => CIter (if j <? 0 then cap else Nat.min cap (Z.to_nat j)))
-  else if k =? 2 then i <- p_next ;; p_ret (fun _ => CSeek i)
-  else if k =? 3 then p_ret (fun _ => CCount)
+  if k =? 0 then j <- p_next ;; p_ret (false, fun cap => CIter (if j <? 0 then cap else Nat.min cap (Z.to_nat j)))
+  else if k =? 2 then i <- p_next ;; p_ret (false, fun _ => CSeek i)
+  else if k =? 3 then p_ret (false, fun _ => CCount)
+  else if k =? 6 then p_ret (true, fun cap => CIter cap)
   else p_fail.
 
 Definition written_count (rs : list (res unit)) : Z :=
@@ -328,6 +330,20 @@ Definition r_cout (o : cout) : list Z :=
   | COItems items ended => zlen items :: flat_map r_pair_item items ++ [r_bool ended]
   | COSeek r => r_unit_res r
   | COCount r => r_res (fun n => [n]) r
+  end.
+
+Fixpoint collect_pairs (items : list (res (shape * Z))) : res (list (shape * Z)) :=
+  match items with
+  | [] => Ok []
+  | Ok x :: r => match collect_pairs r with Ok l => Ok (x :: l) | e => e end
+  | Err e :: _ => Err e
+  | Panic :: _ => Panic
+  end.
+
+Definition r_cout_for (bulk : bool) (o : cout) : list Z :=
+  match bulk, o with
+  | true, COItems items _ => r_res (fun l => zlen l :: flat_map (fun x => r_shape (fst x) ++ [snd x]) l) (collect_pairs items)
+  | _, _ => r_cout o
   end.
 
 Definition case_pair (l : list Z) : list Z :=
@@ -346,8 +362,8 @@ Definition case_pair (l : list Z) : list Z :=
           | Panic => [2]
           | Ok index =>
               let cap := (length shp / 12 + length shx / 8 + 2)%nat in
-              let p := st0 <-- r_with_shx index ;; out <-- c_calls None rows (mkcr st0 0) (map (fun f => f cap) ops) ;;
-                       Ret (flat_map r_cout out) in
+              let p := st0 <-- r_with_shx index ;; out <-- c_calls None rows (mkcr st0 0) (map (fun f => snd f cap) ops) ;;
+                       Ret (flat_map (fun x => r_cout_for (fst (fst x)) (snd x)) (combine ops out)) in
               r_res (fun x => x) (fst (run p (src_of shp)))
           end
       | None, _ => [-3]
